@@ -105,6 +105,76 @@ func scenarioC16(rc *RunCtx) *Violation {
 	rc.Note(fmt.Sprintf("proj:%x", fnv64(fmt.Sprint(describeProject(p, o)))))
 	rc.Sample("project", describeProject(p, o))
 
+	if g.n(4) == 0 {
+		// ---- mode C: cancellation sweep: one cancellation before every poll of the
+		// cancel flag that an uncancelled build performs (bounded-exhaustive for this
+		// workload); afterwards the context must still build like a fresh one ----
+		rc.Sample("mode", "cancellation sweep over every cancel-flag poll of one build")
+		if len(p.Entries) < 2 {
+			for i := 1; i < len(p.Mods) && len(p.Entries) < 3; i++ {
+				if isJS(p.Mods[i].Kind) && !entryOf(p, i) {
+					p.Entries = append(p.Entries, i)
+				}
+			}
+		}
+		if g.n(2) == 0 {
+			o.Splitting = false
+		}
+		d := newDisk(g)
+		p.WriteTo(d, false)
+		opts := o.Build(p)
+		var ref api.BuildResult
+		polls := 0
+		s := rc.Sim(SimOpts{Disk: d.Snapshot(), Canonical: true}, func() {
+			verifsim.SetTrigger("cancelpoll", 1<<30)
+			ref = api.Build(opts)
+			polls = verifsim.TriggerCount()
+		})
+		rc.Stats.Builds++
+		rc.Stats.SimBuilds++
+		if v := abnormal(s, "clean reference build"); v != nil {
+			return v
+		}
+		refC := MakeCanon(ref, p.Root)
+		rc.Stats.Probes["cancel_poll_points"] += polls
+		dd := d.Snapshot()
+		var results []api.BuildResult
+		var after api.BuildResult
+		s = rc.Sim(SimOpts{Disk: dd, MaxSteps: 8000000}, func() {
+			ctx, cerr := api.Context(opts)
+			if cerr != nil {
+				return
+			}
+			for k := 1; k <= polls+1; k++ {
+				var r api.BuildResult
+				cancelRebuild(ctx, 999+k, func(x api.BuildResult) { r = x })
+				results = append(results, r)
+			}
+			after = ctx.Rebuild()
+			ctx.Dispose()
+		})
+		rc.Stats.Builds += len(results) + 1
+		rc.Stats.SimBuilds += len(results) + 1
+		if v := abnormal(s, fmt.Sprintf("cancellation sweep over %d poll points", polls)); v != nil {
+			return v
+		}
+		for k, r := range results {
+			if bad := badDiagnostics(r); bad != "" {
+				return &Violation{Class: "internal-error-diagnostic", Key: "cancel", Detail: fmt.Sprintf("build cancelled before poll %d reports: %s", k+1, trunc(bad, 800))}
+			}
+			if strings.Contains(errTexts(r), "The build was canceled") {
+				rc.Probe("cancel_during_build")
+			}
+		}
+		if len(results) > 0 {
+			if class, detail := refC.Diff(MakeCanon(after, p.Root)); class != "" && !(strings.HasSuffix(class, "-order")) {
+				return &Violation{Class: "unusable-after-faults-" + class, Key: class, Detail: fmt.Sprintf("a rebuild after %d cancelled rebuilds differs from the clean reference: %s", len(results), detail)}
+			}
+			rc.Probe("cancel_sweep_done")
+		}
+		rc.Note(fmt.Sprintf("cancelsweep:%d", polls))
+		return nil
+	}
 	if g.n(2) == 0 {
 		// ---- mode B: one-shot builds; faults may corrupt what is read ----
 		rc.Sample("mode", "one-shot builds with read faults and corruption")
@@ -130,7 +200,7 @@ func scenarioC16(rc *RunCtx) *Violation {
 			dd.SetPlan(pl)
 			cancelAfter := -1
 			if g.n(4) == 0 {
-				cancelAfter = g.n(500)
+				cancelAfter = drawCancel(g)
 			}
 			var faulted, after api.BuildResult
 			s := rc.Sim(SimOpts{Disk: dd}, func() {
@@ -139,15 +209,7 @@ func scenarioC16(rc *RunCtx) *Violation {
 					if cerr != nil {
 						return
 					}
-					parallel(
-						func() { faulted = ctx.Rebuild() },
-						func() {
-							for k := 0; k < cancelAfter; k++ {
-								verifsim.Yield("harness", "spin")
-							}
-							ctx.Cancel()
-						},
-					)
+					cancelRebuild(ctx, cancelAfter, func(r api.BuildResult) { faulted = r })
 					ctx.Dispose()
 				} else {
 					faulted = api.Build(opts)
@@ -217,8 +279,8 @@ func scenarioC16(rc *RunCtx) *Violation {
 		return nil
 	}
 	cfg.Cancel = func(step int) int {
-		if step%2 == 1 && g.n(4) == 0 {
-			return g.n(500)
+		if step%2 == 1 && g.n(3) == 0 {
+			return drawCancel(g)
 		}
 		return -1
 	}
